@@ -496,7 +496,7 @@ def atom_constructors_agree(idx: Index, rep: Report, rule: str) -> None:
             got = call_name(v) if isinstance(v, ast.Call) else norm(v)[:40] if v is not None else "None"
             # auto_promote is exact for Python ints and bools; it normalises Fractions (denominator 1 -> int)
             ok = got == ctor or (got == "auto_promote" and fld in ("int", "boolean"))
-            rep.check(ok, rule, f"Atom.{fld} is read back with {ctor}()", rd.loc(r), construct=f"field == '{fld}' -> {got}(…)", detail="" if ok else f"the writer emits Atom({fld}=…) for {ctor} constants but the reader builds the node with `{got}`: a constructor that normalises its argument (auto_promote maps Fraction(4, 1) to the int 4) returns a node of another kind, and the expression read back differs from the one written", function=rd.qualname)
+            rep.check(ok, rule, f"Atom.{fld} is read back with {ctor}()", rd.loc(r), construct=f"field == '{fld}' -> {got}(…)", detail="" if ok else f"the writer emits Atom({fld}=…) for {ctor} constants but the reader builds the node with `{got}`: a constructor that normalises its argument (auto_promote maps Fraction(4, 1) to the int 4) returns a node of another kind, and the expression read back differs from the one written", function=rd.qualname, strict=(got == "auto_promote"))
     rep.count("atom_kinds", n)
 
 
@@ -1212,7 +1212,12 @@ def c32(idx: Index, rep: Report, tier: str) -> None:
     rep.count("preference_appends", npf)
     rep.require_min(rule_p, "preference_appends", 4)
     rep.count("report_assertions", ne)
-    rep.require_min(rule_e, "report_assertions", 2, get.qualname)
+    if not m_sel:
+        # what the selection accepts per requirement is read from its if-chain over the operation modes; a selection
+        # written another way (table-driven) leaves nothing to compare the report's assertions with
+        rep.inconclusive(rule_e, "the report for a rejected candidate accepts every engine class the selection accepts", sel.loc(), construct="the selection's accepted classes per requirement could not be read", detail="not decided: _engine_satisfies_conditions is not an if-chain with issubclass assertions", function=sel.qualname)
+    else:
+        rep.require_min(rule_e, "report_assertions", 2, get.qualname)
 
 
 # ------------------------------------------------------------------------------------ C34
@@ -1621,7 +1626,7 @@ def sim_effects_recorded(idx: Index, rep: Report, prefix: str) -> None:
             continue
         n += 1
         boolean_case = any(a.endswith(".is_bool_type()") and v for a, v in facts)
-        rep.check(boolean_case, rule, "_evaluate_effect: a firing effect yields no update only in the Boolean add-after-delete case", ee.loc(nd.ast), construct="return (None, None) under " + "; ".join(norm(t.ast)[:40] + ("" if o else " [false]") for t, o in gs)[:160], detail="" if boolean_case else "a firing non-Boolean effect is dropped (treated as a no-op): it is missing from the pending updates, so a conflicting second assignment in the same step is accepted", function=ee.qualname)
+        rep.check(boolean_case, rule, "_evaluate_effect: a firing effect yields no update only in the Boolean add-after-delete case", ee.loc(nd.ast), construct="return (None, None) under " + "; ".join(norm(t.ast)[:40] + ("" if o else " [false]") for t, o in gs)[:160], detail="" if boolean_case else "a firing non-Boolean effect is dropped (treated as a no-op): it is missing from the pending updates, so a conflicting second assignment in the same step is accepted", function=ee.qualname, strict=any(a.endswith(".is_bool_type()") and v is False for a, v in facts))
     rep.count("recording_sites", n)
     rep.require_min(rule, "recording_sites", 3)
 
@@ -2891,7 +2896,7 @@ def bounded_type_selection(idx: Index, rep: Report, rule: str) -> None:
                     taken = any(bool(interp._expr(c.test, dict(env))) for c in chain)
                     want = lo is not None or hi is not None
                     n += 1
-                    rep.check(taken == want, rule, f"a fluent of type {kind}[{lo}, {hi}] is " + ("rewritten to the unbounded type" if want else "left as it is"), f.loc(top), construct=f"{kind}[{lo}, {hi}]: rewritten={taken}", detail="" if taken == want else "a fluent whose type is bounded on one side only keeps its bounded type: the compiled problem still has BOUNDED_TYPES (undeclared) and the bound is not turned into a condition", function=f.qualname)
+                    rep.check(taken == want, rule, f"a fluent of type {kind}[{lo}, {hi}] is " + ("rewritten to the unbounded type" if want else "left as it is"), f.loc(top), construct=f"{kind}[{lo}, {hi}]: rewritten={taken}", detail="" if taken == want else "a fluent whose type is bounded on one side only keeps its bounded type: the compiled problem still has BOUNDED_TYPES (undeclared) and the bound is not turned into a condition", function=f.qualname, strict=True)
     except _OrderInterp.Unsupported as u:
         rep.inconclusive(rule, f"the guard of the rewriting branch is not interpretable ({u})", f.loc(top), function=f.qualname)
         return
@@ -3113,7 +3118,7 @@ def c14(idx: Index, rep: Report, tier: str) -> None:
         for m in ci.methods.values():
             k += 1
             reads = [x for x in walk_no_nested(m.node) if isinstance(x, ast.Attribute) and x.attr == "memoization" and norm(x.value) == "self"]
-            rep.check(not reads, rule_b, f"{ci.name}.{m.name} does not consult self.memoization", m.loc(reads[0]) if reads else m.loc(), construct=norm(reads[0]) if reads else m.name, detail="" if not reads else "the simplifier's memoization outlives a walk: a method that branches on its content returns different results (or fails / does not fail) depending on which expressions were simplified before", function=m.qualname)
+            rep.check(not reads, rule_b, f"{ci.name}.{m.name} does not consult self.memoization", m.loc(reads[0]) if reads else m.loc(), construct=norm(reads[0]) if reads else m.name, detail="" if not reads else "the simplifier's memoization outlives a walk: a method that branches on its content returns different results (or fails / does not fail) depending on which expressions were simplified before", function=m.qualname, strict=True)
     rep.count("simplifier_methods", k)
     class_level_mutables(idx, rep, "C14.8 T11 no-class-level-cache", ("unified_planning.model.walkers", "unified_planning.model.expression", "unified_planning.model.fnode", "unified_planning.environment"))
 
